@@ -28,23 +28,50 @@ type RunningEventFilter struct {
 	database db.KeyValueStore
 
 	initialize RunningEventFilterInitializer
-	initErr    error
-	lazyOnce   sync.Once
+	initMu     sync.Mutex
+	ready      bool
 }
 
+// ensureInit brings a lazy filter to a working state. A failed initialisation is
+// not remembered: the next access tries again, so a transient database error does
+// not leave the filter unusable for the rest of the process lifetime.
 func (f *RunningEventFilter) ensureInit() error {
-	if f.initialize != nil {
-		f.lazyOnce.Do(func() {
-			filter, err := f.initialize(f.database)
-			if err != nil {
-				f.initErr = fmt.Errorf("couldn't initialize the running event filter: %w", err)
-				return
-			}
-			f.inner = filter.inner
-			f.next = filter.next
-		})
+	if f.initialize == nil {
+		return nil
 	}
-	return f.initErr
+
+	f.initMu.Lock()
+	defer f.initMu.Unlock()
+	if f.ready {
+		return nil
+	}
+
+	filter, err := f.initialize(f.database)
+	if err != nil {
+		return fmt.Errorf("couldn't initialize the running event filter: %w", err)
+	}
+	f.inner = filter.inner
+	f.next = filter.next
+	f.ready = true
+	return nil
+}
+
+// Invalidate discards the in-memory window; the next access re-derives it from the
+// database. Insert and OnReorg update the window before the batch they write to is
+// committed, so a caller whose commit failed must invalidate the filter: otherwise
+// it keeps describing a chain that was never persisted.
+func (f *RunningEventFilter) Invalidate() {
+	f.mu.Lock()
+	defer f.mu.Unlock()
+
+	f.initMu.Lock()
+	defer f.initMu.Unlock()
+	if f.initialize == nil {
+		f.initialize = InitializeRunningEventFilter
+	}
+	f.inner = nil
+	f.next = 0
+	f.ready = false
 }
 
 // NewRunningEventFilterHot returns a RunningEventFilter that wraps the provided
@@ -440,9 +467,9 @@ func (f *RunningEventFilter) UnmarshalBinary(data []byte) error {
 		return fmt.Errorf("read next block: %w", err)
 	}
 
-	f.initErr = nil
 	f.mu = sync.RWMutex{}
-	f.lazyOnce = sync.Once{}
+	f.initMu = sync.Mutex{}
+	f.ready = false
 	f.initialize = nil
 
 	return nil
